@@ -19,7 +19,7 @@ theorem C12_prefix (us : List Unit') (f : Files) (stdin : List Ev) (sched : List
 number and order) and no schedule (keyboard thread finishing before, during or after any iteration)
 shortens the stream: every schedule that lets the main loop run to its end prints everything -/
 theorem C12_full_without_quit (us : List Unit') (f : Files) (stdin : List Ev) (sched : List Actor)
-    (hq : NoQuit stdin) (hn : (remaining us f).length + us.length + 2 ≤ mainSteps sched) :
+    (hq : NoQuit stdin) (hn : (remaining us f).length + 2 * us.length + 3 ≤ mainSteps sched) :
     (run us (initLoad f stdin) sched).main = .finished ∧
     (run us (initLoad f stdin) sched).out = remaining us f :=
   full_stream_without_quit us f stdin sched hq hn
